@@ -22,6 +22,10 @@ fn lexicon() -> String {
                      ("ス", "名詞,普通名詞,一般,*,*,*"), ("ー", "補助記号,一般,*,*,*,*"), ("二千", "名詞,固有名詞,一般,*,*,*"), ("カタカナ", "名詞,普通名詞,一般,*,*,*")] {
         lex.push_str(&format!("{w},3,3,50,{w},{pos},ヨミ,{w},*,A,*,*,*,*\n", w = w, pos = pos));
     }
+    // compounds with declared A/B units (rows 31 = アイウ, 30 = アイ, 32 = ス, 34 = 二千, 28 = 円): a merged token that STARTS with one must not inherit them
+    lex.push_str("アイウアイ,3,3,40,アイウアイ,名詞,固有名詞,一般,*,*,*,ヨミ,アイウアイ,*,C,31/30,31/30,*,*\n");
+    lex.push_str("スアイ,3,3,40,スアイ,名詞,普通名詞,一般,*,*,*,ヨミ,スアイ,*,B,32/30,*,*,*\n");
+    lex.push_str("二千円,3,3,40,二千円,名詞,普通名詞,一般,*,*,*,ヨミ,二千円,*,C,34/28,34/28,*,*\n");
     lex
 }
 
@@ -59,8 +63,8 @@ pub fn record(args: &[String]) -> i32 {
         vec![num(true), kat(3, &p1)], vec![num(false), kat(1, &p2)], vec![kat(0, &p1), num(true)], vec![num(true)], vec![kat(3, &p2)], vec![kat(2, &p1), num(false)],
     ];
     let (plain, _) = world(&[]);
-    let pieces = ["1", "2", "0", "00", "5", "一", "二", "十", "百", "千", "万", "億", ",", ".", "ア", "イ", "ウ", "ァ", "ー", "アイ", "アイウ", "ス", "カ", "は", "円", "a", "二千", "カタカナ", "ｱ", "あ"];
-    let fixtures = ["1,234.5円", "123", "二千円", "二千三百", "ァアイウ", "アイウァ", "カタカナ1,000", "1,000カタカナ", "1.", "1,", ",1", "１２３", "アイウエ", "ースア", "アー", "ァ", "1,23,456", "3.14.15", "二千1.5千", "1万2千ア"];
+    let pieces = ["アイウアイ", "スアイ", "二千円", "1", "2", "0", "00", "5", "一", "二", "十", "百", "千", "万", "億", ",", ".", "ア", "イ", "ウ", "ァ", "ー", "アイ", "アイウ", "ス", "カ", "は", "円", "a", "二千", "カタカナ", "ｱ", "あ"];
+    let fixtures = ["アイウアイエ", "アイウアイ", "アイウアイァ", "スアイエ", "エアイウアイ", "二千円", "1二千円", "アイウアイ1", "1,234.5円", "123", "二千円", "二千三百", "ァアイウ", "アイウァ", "カタカナ1,000", "1,000カタカナ", "1.", "1,", ",1", "１２３", "アイウエ", "ースア", "アー", "ァ", "1,23,456", "3.14.15", "二千1.5千", "1万2千ア"];
     let mut run = 0usize;
     for plugins in settings.iter() {
         let (dict, rules) = world(plugins);
@@ -69,11 +73,13 @@ pub fn record(args: &[String]) -> i32 {
         let mut t = StatefulTokenizer::new(dict.clone(), Mode::C);
         let mut texts: Vec<String> = fixtures.iter().map(|s| s.to_string()).collect();
         for _ in 0..n / settings.len() { let k = 1 + rng.below(8); texts.push((0..k).map(|_| rng.pick_str(&pieces)).collect()); }
-        for text in texts.iter() {
+        for (ti, text) in texts.iter().enumerate() {
             run += 1;
-            tok::record_run(&mut tr, run, &w, &mut t, Mode::C, text, json!({}));
-            // the same analysis without any path-rewrite plugin
-            let mut t2 = StatefulTokenizer::new(plain.clone(), Mode::C);
+            // two analyses out of three in mode C, the others in A / B: the split stage follows the plugins
+            let mode = match ti % 6 { 1 => Mode::A, 4 => Mode::B, _ => Mode::C };
+            tok::record_run(&mut tr, run, &w, &mut t, mode, text, json!({}));
+            // the same analysis without any path-rewrite plugin, in the same mode
+            let mut t2 = StatefulTokenizer::new(plain.clone(), mode);
             t2.reset().push_str(text);
             let r = catch(std::panic::AssertUnwindSafe(|| -> Result<Vec<usize>, String> {
                 t2.do_tokenize().map_err(|e| format!("{:?}", e))?;
@@ -84,7 +90,7 @@ pub fn record(args: &[String]) -> i32 {
                 b.sort(); b.dedup();
                 Ok(b)
             }));
-            if let Ok(Ok(b)) = r { tr.emit(json!({"ev": "noplugin", "run": run, "bounds": b})); }
+            if let Ok(Ok(b)) = r { tr.emit(json!({"ev": "noplugin", "run": run, "bounds": b, "mode": tok::mode_idx(mode)})); }
         }
     }
     let cnt = tr.finish();
